@@ -3,6 +3,11 @@ package main
 // C12: at most one approve/compare session per device.
 
 import (
+	"strconv"
+	"path/filepath"
+	"os"
+	"os/exec"
+	"encoding/json"
 	"fmt"
 	"go/token"
 	"sort"
@@ -266,6 +271,7 @@ func checkC12(p *Prog, r *Report) {
 		r.fail("model", "model", "", err.Error(), "")
 		return
 	}
+	ruleLockFilesStay(p, r)
 	cg := p.CG()
 	r.rule("R12.3", "Exactly one module function calls syscall.Flock (the lock function); its flags are the constant LOCK_EX|LOCK_NB; the locked file is opened at join[<fields of the configuration>, constants..., base(<its name parameter>)] so that a device name and a path to the device's code file give the same lock file, and no other parameter influences the path; on the flock-failure edge the returned error is non-nil.")
 	var lockFns []*ssa.Function
@@ -609,3 +615,95 @@ func ruleLockHandle(p *Prog, r *Report, caller *ssa.Function, site ssa.CallInstr
 }
 
 var _ = callgraph.AddEdge
+
+// ruleLockFilesStay: R12.4.  The lock is the flock on an open file of basedir/lock/<device>.
+// A program that unlinks or renames that file while a run holds it lets the next run create and
+// lock a new file: both runs proceed.  No program of the repository may do that.
+func ruleLockFilesStay(p *Prog, r *Report) {
+	r.rule("R12.4", "Nothing in the repository removes or renames an entry of the lock directory: (a) for every shell script under bin/ (parsed by bash, nothing executed; shell/c19.py --lockdir-facts) no rm / rmdir / unlink / mv / find -delete / find -exec rm has a path argument that, after replacing variables by every value the script assigns to them (assignments and `for V in words`), has a path component `lock`; (b) no call of os.Remove, os.RemoveAll or os.Rename in the module's production code has an argument built with the constant \"lock\". An unlinked lock file that is still held no longer excludes anybody: the next run creates a new file and locks that.")
+	cmd := exec.Command("python3", filepath.Join(verifDir(), "shell", "c19.py"), "--lockdir-facts")
+	cmd.Env = append(os.Environ(), "VERIF_REPO="+p.RepoDir, "VERIF_DIR="+verifDir())
+	out, err := cmd.Output()
+	type fact struct {
+		Script   string `json:"script"`
+		Ok       bool   `json:"ok"`
+		Commands int    `json:"commands"`
+		Detail   string `json:"detail"`
+	}
+	var facts []fact
+	if err == nil {
+		err = json.Unmarshal(out, &facts)
+	}
+	if err != nil {
+		r.fail("R12.4", "lockdir|shell-scripts", "bin/", "shell scripts could not be analysed: "+err.Error(), "undecided")
+	}
+	for _, f := range facts {
+		r.add("R12.4", "lockdir|bin/"+f.Script, "bin/"+f.Script, fmt.Sprintf("%d simple commands, none removes or renames entries of the lock directory", f.Commands), f.Ok,
+			"the script removes entries of the lock directory; a lock file that is held at that moment stops excluding other runs: "+f.Detail)
+	}
+	r.floor("R12.4", "shell scripts under bin/ analysed", len(facts), 8)
+	n := 0
+	for _, fn := range allModFuncs(p) {
+		for _, cs := range callsOf(fn) {
+			switch cs.calleeName() {
+			case "os.Remove", "os.RemoveAll", "os.Rename":
+				n++
+				bad := ""
+				for _, a := range cs.In.Common().Args {
+					for _, s := range pathConstants(a, 0, map[ssa.Value]bool{}) {
+						if s == "lock" || strings.HasPrefix(s, "lock/") || strings.Contains(s, "/lock/") || strings.HasSuffix(s, "/lock") {
+							bad = s
+						}
+					}
+				}
+				r.add("R12.4", "lockdir|"+shortName(fn)+"|"+cs.calleeName(), p.ipos(cs.In), cs.calleeName()+" in "+shortName(fn)+" does not touch the lock directory", bad == "",
+					"removes or renames a path built with "+strconv.Quote(bad))
+			}
+		}
+	}
+	r.note("R12.4: %d os.Remove/RemoveAll/Rename calls examined", n)
+}
+
+// pathConstants: the string constants a path value is built from (through path.Join and other
+// calls, concatenation, variables).
+func pathConstants(v ssa.Value, d int, seen map[ssa.Value]bool) []string {
+	if v == nil || d > 8 || seen[v] {
+		return nil
+	}
+	seen[v] = true
+	var out []string
+	if s, ok := constString(v); ok {
+		return []string{s}
+	}
+	switch x := v.(type) {
+	case *ssa.Call:
+		for _, a := range x.Common().Args {
+			out = append(out, pathConstants(a, d+1, seen)...)
+			if el, ok := sliceLitElems(a); ok {
+				for _, e := range el {
+					out = append(out, pathConstants(e, d+1, seen)...)
+				}
+			}
+		}
+	case *ssa.BinOp:
+		out = append(out, pathConstants(x.X, d+1, seen)...)
+		out = append(out, pathConstants(x.Y, d+1, seen)...)
+	case *ssa.Phi:
+		for _, e := range x.Edges {
+			out = append(out, pathConstants(e, d+1, seen)...)
+		}
+	case *ssa.UnOp:
+		if al, ok := x.X.(*ssa.Alloc); ok {
+			for _, st := range cellStores(al) {
+				out = append(out, pathConstants(st.Val, d+1, seen)...)
+			}
+		}
+	case *ssa.MakeInterface:
+		out = append(out, pathConstants(x.X, d+1, seen)...)
+	case *ssa.Convert:
+		out = append(out, pathConstants(x.X, d+1, seen)...)
+	case *ssa.Extract:
+		out = append(out, pathConstants(x.Tuple, d+1, seen)...)
+	}
+	return out
+}
